@@ -9,7 +9,9 @@ P[h01]="C04 C05 C03 C07"; P[h02]="C01 C02 C09 C06"; P[h03]="C01 C02 C09 C06"; P[
 P[h05]="C06 C08 C01 C02"; P[h06]="C10 C11 C20 C09 C07"; P[h07]="C10 C11 C20 C15"; P[h08]="C13 C07 C05 C14"
 P[h09]="C07 C10 C19 C13"; P[h10]="C15 C17 C16"; P[h11]="C12 C13 C07 C05"; P[h12]="C16 C19 C17"
 P[h13]="C18 C13 C14"; P[h14]="C03 C12"
-ids="$@"; [ -z "$ids" ] && ids=$(ls seeded/harmless | grep "^h.*diff" | sed 's/.diff//')
+P[g01]="C07 C09 C10 C05 C11"; P[g02]="C10 C11 C07 C20"; P[g03]="C15 C09"; P[g04]="C20 C09 C07 C10"; P[g05]="C06 C19 C08"
+P[g06]="C09 C06"; P[g07]="C09 C06 C08"; P[g08]="C15"; P[g09]="C17"; P[g10]="C17 C16"; P[g11]="C12 C13"; P[g12]="C18 C11 C14"
+ids="$@"; [ -z "$ids" ] && ids=$(ls seeded/harmless | grep "^[hg][0-9]*.diff" | sed 's/.diff//')
 raw=.work/harmless_raw.txt; : > $raw
 for h in $ids; do echo "$h ${P[$h]}"; done | xargs -P $J -L1 sh -c './tools_iso_check.sh seeded/harmless/$0.diff '$raw' "$@"'
 { echo "# harmless-refactoring sweep against /repo $(git -C /repo rev-parse --short HEAD), /verif $(git rev-parse --short HEAD), $(date -u +%FT%TZ)"; sort $raw; } > seeded/harmless/SWEEP.txt
